@@ -323,7 +323,15 @@ pub fn gen(id: &str, r: &mut Rng, out: &mut Vec<Case>) {
                     let y = operand(r);
                     let fl = flags_in(r);
                     let (a, b) = if r.chance(1, 2) { (x, y) } else { (y, x) };
-                    match r.below(10) {
+                    match r.below(11) {
+                        10 => { // exact zero results whose preferred exponent must be clamped (results must stay canonical)
+                            let sum = r.chance(1, 2);
+                            let (p, q) = clamp_boundary_pair(r, sum);
+                            if sum {
+                                if r.chance(1, 3) { out.push(case("fused_multiply_add", mode_tok(r), fl, vec![d(p), d(q), d(zero(r))])); }
+                                else { out.push(case("multiplication", mode_tok(r), fl, vec![d(p), d(q)])); }
+                            } else { out.push(case("division", mode_tok(r), fl, vec![d(p), d(q)])); }
+                        }
                         0 => out.push(case(*r.pick(&["addition", "subtraction", "multiplication", "division", "quantize", "fdim"]), mode_tok(r), fl, vec![d(a), d(b)])),
                         1 => out.push(case(*r.pick(&["remainder", "fmod", "min_num", "max_num", "min_num_mag", "max_num_mag", "next_after", "next_toward"]), '-', fl, vec![d(a), d(b)])),
                         2 => out.push(case(*r.pick(&["square_root", "round_to_integral_exact", "nearbyint"]), mode_tok(r), fl, vec![d(x)])),
